@@ -5,19 +5,20 @@
 (* of every transition for replay into the real library.                   *)
 (***************************************************************************)
 EXTENDS OdmlTreeOps, Json
-CONSTANTS DocIds, SecIds, PropIds, PoolIds, OtherIds, Names
+CONSTANTS DocIds, SecIds, PropIds, PoolIds, OtherIds, Names,
+          IdNames      \* TRUE: objects may start out unnamed (named by their id, token "#x"), such worlds are expanded too, and new_id is an operation
 VARIABLES st, last
 AllIds == DocIds \cup SecIds \cup PropIds \cup PoolIds \cup OtherIds
 
 KindOf(x) == IF x \in DocIds THEN "doc" ELSE IF x \in SecIds THEN "sec"
              ELSE IF x \in PropIds THEN "prop" ELSE IF x \in OtherIds THEN "other" ELSE "unborn"
 
-Init == /\ \E nm \in [SecIds \cup PropIds -> Names] :
+Init == /\ \E nm \in [SecIds \cup PropIds -> Names \cup (IF IdNames THEN {"#"} ELSE {})] :
             st = [kind  |-> [x \in AllIds |-> KindOf(x)],
                   kids  |-> [x \in AllIds |-> <<>>],
                   plist |-> [x \in AllIds |-> <<>>],
                   par   |-> [x \in AllIds |-> NONE],
-                  name  |-> [x \in AllIds |-> IF x \in SecIds \cup PropIds THEN nm[x] ELSE "-"]]
+                  name  |-> [x \in AllIds |-> IF x \in SecIds \cup PropIds THEN (IF nm[x] = "#" THEN "#" \o x ELSE nm[x]) ELSE "-"]]
         /\ last = [op |-> [name |-> "init"], out |-> "ok"]
 
 Unborn(w) == {x \in DOMAIN w.kind : w.kind[x] = "unborn"}
@@ -31,6 +32,7 @@ Ops(w) ==
   {[name |-> "setitem", c |-> c, i |-> i, x |-> x] : c \in C, i \in 1..2, x \in K} \cup
   {[name |-> "reorder", x |-> x, i |-> i] : x \in K, i \in 0..2} \cup
   {[name |-> "rename", x |-> x, n |-> n] : x \in K, n \in Names \cup {NONE, "empty"}} \cup
+  (IF IdNames THEN {[name |-> "new_id", x |-> x, y |-> y] : x \in K, y \in K \cup {NONE}} ELSE {}) \cup
   (IF Unborn(w) = {} THEN {} ELSE LET h == CHOOSE h \in Unborn(w) : TRUE IN
      {[name |-> nm, h |-> h, n |-> n, c |-> c, card |-> card] :
           nm \in {"new_sec", "new_prop"}, n \in Names \cup {NONE}, c \in C \cup {NONE}, card \in {"none", "ok", "bad"}} \cup
@@ -38,7 +40,7 @@ Ops(w) ==
           nm \in {"create_sec", "create_prop", "create_prop_badvals"}, n \in Names \cup {NONE}, c \in C})
 
 Expandable(w) == /\ \A x \in PoolIds : w.kind[x] = "unborn"
-                 /\ \A x \in DOMAIN w.name : w.name[x] \in Names \cup {"-"}
+                 /\ \A x \in DOMAIN w.name : w.name[x] \in Names \cup {"-"} \cup (IF IdNames THEN {"#" \o x} ELSE {})
 Next == Expandable(st) /\ \E op \in Ops(st) : \E r \in Post(st, op) :
            /\ st' = r.st
            /\ last' = [op |-> op, out |-> r.out]
